@@ -139,6 +139,14 @@ def block(g, depth, kinds):
         m1, m2 = g.marker(), g.marker()
         name = "admonition" if kind == "dir-title-role" else "topic"
         return [":::{%s} Title {nosuchrole%s}`x`" % (name, m1), m2 + " body", ":::"], [(m1, 0, "warning:role_unknown", None), (m2, 1, "paragraph", None)]
+    if kind == "dir-sourceless-outer":
+        # a directive whose output has no source info of its own, with another directive in its body: each output has its own line
+        m1, m2 = g.marker(), g.marker()
+        name = ["container", "compound", "topic"][g.choose(3)]
+        arg = {"container": " cls", "topic": " Topic title", "compound": ""}[name]
+        inner = ["note", "container"][g.choose(2)]
+        return (["````{%s}%s" % (name, arg), m1 + " first", "", "```{%s}%s" % (inner, " c2" if inner == "container" else ""), m2 + " inner", "```", "````"],
+                [(m1, 0, name, None), (m1, 1, "paragraph", None), (m2, 3, inner, None), (m2, 4, "paragraph", None)])
     if kind == "dir-epigraph":
         # docutils' block-quote directives go through MockState.block_quote: quote, body and attribution each have their own line
         m1, m2 = g.marker(), g.marker()
@@ -614,7 +622,7 @@ def make_sphinx_figure(eng):
     return body
 
 
-FLAT_EXTRA = ["container", "code-unknown-lang", "dir-container", "dir-topic", "dir-compound", "dir-rubric", "dir-title-role", "dir-topic-title-role", "quote-attribution", "dir-epigraph"]
+FLAT_EXTRA = ["container", "code-unknown-lang", "dir-container", "dir-topic", "dir-compound", "dir-rubric", "dir-title-role", "dir-topic-title-role", "quote-attribution", "dir-epigraph", "dir-sourceless-outer"]
 ALL = ["para", "quote", "list", "code", "target", "heading", "unknown-directive", "unknown-role", "directive"]
 
 
@@ -623,7 +631,7 @@ def families(tier, seed):
     F = []
     F.append(Family("layout/flat", make_layout, "2 blocks from %r at symbolic offset S" % (ALL[:-1] + FLAT_EXTRA,), args=dict(depth=0, nblocks=2, kinds=ALL[:-1] + FLAT_EXTRA), nontrivial=None, max_forks=300000))
     F.append(Family("layout/D1", make_layout, "one directive (backtick/colon, 3 option styles, 0-2 blank lines, merged first line) containing 1-2 blocks from %r, at symbolic offset S" % (ALL[:-1],),
-                    args=dict(depth=1, nblocks=1, kinds=["directive"], inner=["para", "list", "heading", "unknown-role", "unknown-directive", "target"]), nontrivial="directive", max_forks=300000))
+                    args=dict(depth=1, nblocks=1, kinds=["directive"], inner=["para", "list", "heading", "unknown-role", "unknown-directive", "target", "dir-container", "dir-compound"]), nontrivial="directive", max_forks=300000))
     if not q:
         F.append(Family("layout/D2", make_layout, "one directive (backtick/colon, 3 option styles, 0-2 blank lines, merged first line) containing 1-2 blocks incl. a nested directive; symbolic offset S",
                     args=dict(depth=2, nblocks=1, kinds=["directive"], inner=["para", "directive", "unknown-role"]), nontrivial="directive", max_forks=300000, required=False))
